@@ -19,6 +19,13 @@ CHECKS = {
         note="Trusted: the intended relation in Sobolev.tla (closure of the declared parent graph; D(o)=H^k when isotropic; H^max(o) <= D(o) <= H^min(o)); comparisons that sobolevspace.py declares unknown (directional vs HEin/HDivDiv/HCurlDiv) may raise NotImplementedError.",
         design_ref="DESIGN.md §3 C25",
     ),
+    "C01": dict(
+        engine="Pipeline",
+        technique="(protocol) TLC exhaustive check of spec/Pipeline.tla (compute_form_data as a state machine over options, stage counter and node-kind set) + TLC trace validation (spec/TracePipeline.tla) of every recorded execution (hook H1: one event per pass with the observed feature set); (meaning) TLC enumeration of UFLBuild integrands under the series semantics followed by the action pipeline(k) + replay through compute_form_data(e*dx, options k) with the preprocessed integrand evaluated in the reference frame",
+        text="Pipeline.tla has one action per pass in source order with the code's enabling conditions, MustRemove/MayIntroduce node kinds and a scaling counter; TLC checks for all option vectors and all initial feature sets that no compound operator, no unexpanded derivative, no physical form argument (with pullbacks), no lowerable geometry (with lowering), no J/K/detJ (unless preserved) and exactly the requested scaling survive. Every compute_form_data call of the run (thousands, incl. facet/interior-facet forms with arguments in real and complex mode) is recorded pass by pass and validated by TLC against the same actions (stage order and enabling, per-pass kind transitions, final promises; a call that raises is a prefix). Meaning: the action pipeline(k) denotes the integrand's value times |det J| w (or 1); TLC enumerates integrands (fields with independent value/gradient/Hessian data, x and cell volume, tensor algebra, indexing, grad/div/curl/nabla operators up to second order) and 10 (thorough 16) option vectors; the preprocessed integrand is evaluated with reference values, reference gradients J^T grad f, Jacobian data and quadrature weight of two concrete triangles (det J > 0 and < 0) and must equal the prediction.",
+        note="Trusted: Pipeline.tla's kind abstraction and the feature extractor vf/pipeline.py; UFLBuild/jets semantics; vf/sem.py; c07's cell data (bound to TLC in C07). Meaning part: cell integrals on affine 2D triangles with Lagrange coefficients; facet scaling factors, Piola/mixed pullbacks, restrictions and grouping are decided by C07, C08, C17, C15. Refusals (raises) are accepted and counted.",
+        design_ref="DESIGN.md §3 C01",
+    ),
     "C02": dict(
         engine="UFLBuild",
         technique="TLC enumeration of UFLBuild programs under the series semantics of spec/jets/CQ.tla: the coefficient w is seeded as w + s v (+ t v2) and derivative(F, w, v) is BY DEFINITION the s-coefficient of F's series (no differentiation rule in the specification) + replay through ufl.derivative / expand_derivatives and exact evaluation of the expanded expression",
